@@ -55,19 +55,46 @@ def main(prop):
         if len(r.get('out', [])) > 300:
             r = dict(r, out=r['out'][:300] + ['...'], keys=r['keys'][:300])
         violations.append(({'kind': 'sort-call', 'property': prop, 'clauses': j['viol'], 'record': r, 'seed': seed(), 'tier': tier()}, txt))
+    # the worker's own comparison: complete runs of the real worker for every thread count
+    wdir = os.path.join(wd, 'worker')
+    p = nvh(['worker-order', '--tier', tier(), '--seed', seed(), '--shards', NCPU, '--out', wdir], timeout=7200)
+    wgen = json.loads(p.stdout.strip().splitlines()[-1])
+    wfiles = sorted(glob.glob(os.path.join(wdir, 'worker-*.ndjson')))
+    wouts = run_shards('WorkerOrder.tla', wfiles, {}, timeout=7000 if thorough else 1200, xmx='4g')
+    wtot, wwant, wjudged = {'runs': 0, 'fails': 0, 'matches': 0, 'ties': 0}, {}, {}
+    for f, st, lines in wouts:
+        states += st['distinct']; trans += st['generated']
+        for j in lines:
+            if j.get('ev') == 'DONE':
+                for k in wtot:
+                    wtot[k] += j['stat'][k]
+            elif j.get('ev') == 'JUDGE':
+                wwant.setdefault(f, set()).add(j['id'])
+                wjudged[(f, j['id'])] = j
+    if wtot['runs'] != wgen['records']:
+        die_tool('worker-order record count mismatch: harness %d, TLC %d' % (wgen['records'], wtot['runs']))
+    wrecs = fetch_records(wwant)
+    for key, j in sorted(wjudged.items(), key=lambda x: x[0][1]):
+        r = wrecs.get(key, {})
+        txt = '%s: worker run with pattern %r on %s items, %s threads published matches[:10]=%s' % (
+            ','.join(sorted(j['viol'])), r.get('pattern'), r.get('n'), r.get('threads'), r.get('matches', [])[:10])
+        if len(r.get('matches', [])) > 300:
+            r = dict(r, matches=r['matches'][:300] + ['...'], items=r['items'][:300] + ['...'])
+        violations.append(({'kind': 'worker-order', 'property': prop, 'clauses': j['viol'], 'record': r, 'seed': seed(), 'tier': tier()}, txt))
     cov = {
+        'worker_runs_validated': wtot['runs'], 'worker_matches_compared': wtot['matches'], 'worker_adjacent_score_ties': wtot['ties'],
         'states': states + lem['distinct'], 'transitions': trans + lem['generated'],
-        'traces_validated_against_impl': len(files),
+        'traces_validated_against_impl': len(files) + len(wfiles),
         'sort_calls_validated': tot['calls'], 'elements_sorted': tot['elements'],
         'calls_reporting_cancelled': tot['cancelled'], 'calls_completing_nontrivial': tot['complete'],
         'calls_reaching_branch': dict(zip(BRANCH_NAMES, branches)),
         'evaluations': tot['calls'], 'distinct_nontrivial': tot['complete'] + tot['cancelled'],
-        'rule': 'lengths 0..64 exhaustively for 7 arrangement families x {1,4} threads; lengths 100..%s x 7 families x {1,2,4,8} threads; adversarial (randomised McIlroy) inputs that reach the heapsort fallback; cancel flag raised before the call and at the k-th comparison for a geometric grid of k; distinct by (family, n, parameters, threads, cancel moment); non-trivial = n > 1 and completed, or cancelled' % ('300000' if thorough else '50000'),
+        'rule': 'lengths 0..64 exhaustively for 7 arrangement families x {1,4} threads; lengths 100..%s x 7 families x {1,2,4,8} threads; adversarial (randomised McIlroy) inputs that reach the heapsort fallback; cancel flag raised before the call and at the k-th comparison for a geometric grid of k; distinct by (family, n, parameters, threads, cancel moment); non-trivial = n > 1 and completed, or cancelled; plus complete runs of the real worker (9 patterns incl. exclusion-only ones x item sets of 0..%s texts with many score/length ties x {1,2,3,8} threads) whose published order must be the unique documented total order' % ('300000' if thorough else '50000', '10000' if thorough else '1000'),
         'samples': [sample] if sample else first_samples(files, maxlen=10**6), 'exhaustive': False,
     }
     finish(prop, 'model_checking', cov, violations, {}, t0,
            assumptions=['the sort is observed at call granularity; its raw-pointer internals are exercised, their effects judged',
-                        'the comparison is a replica of the worker\'s closure (score, placeholder, length, index)'])
+                        'facade calls use a replica of the worker\'s closure (score, placeholder, length, index); the closure itself is exercised by the worker-order runs'])
 
 
 if __name__ == '__main__':
